@@ -1,25 +1,461 @@
-import CprocVerif.Spec.QbeLayout
+import CprocVerif.Lemmas.AbiDescClasses
 
 /-!
 # C08 — calls interoperate with code built by the platform compiler (descriptor faithfulness)
+
+Model: `Model/AbiDesc.lean` (`qbe.c`: `qbetype`, `emitclass`, `emittype`, `emitfunc`,
+`funcexpr(EXPRCALL)`, `emitinst(ICALL)`, `IVAARG`; `type.c:typeadjust`; `expr.c`: call arguments,
+`exprpromote`; `targ.c`).  Spec: `Spec/QbeLayout.lean` (QBE's documented reading of a `type`
+definition; the flattened C type under the C06 layout spec `Spec/Abi.lean`; ABI classes incl. the
+sub-word classes; 6.5.2.2p6–7 via `Spec/Conv.lean`; the psABI `va_list` types).
+
+The theorems quantify over **all** struct/union types of the member language (unbounded nesting,
+member count, array lengths).  Several full-strength statements are false on the current tree
+(recorded findings of C08): each is kept as `def …_full : Prop`, refuted by a concrete witness, and
+proved under the decidable hypothesis `good` (`Lemmas/AbiDesc.lean`), which excludes exactly the
+classes `QbeLayout.classes` names (`good_excludes_classes`).  The dynamic half of the property
+(mixed executables) is not decided: there is no QBE backend in the sandbox.
 -/
 
 namespace CprocVerif.C08
-open CprocVerif.Layout CprocVerif.Abi CprocVerif.AbiDesc CprocVerif.QbeLayout CprocVerif.Types
+open CprocVerif.Layout CprocVerif.Abi CprocVerif.AbiDesc CprocVerif.QbeLayout
+open CprocVerif.Types (ATy Basic typepromote)
 
-/-- `va_list` of every target of `targ.c` has the kind, size and alignment its psABI prescribes. -/
+/-! ## Aggregate descriptors -/
+
+/-- **Full strength**: for every struct/union type the compiler accepts, QBE's reading of the
+emitted definition has the size and alignment of the C type … -/
+def desc_size_align_full : Prop :=
+  ∀ (T : Abi.Target) (u p : Bool) (fs : AFields) (q : QTy), WfType (erase (.su u p fs)) →
+    emittype (.su u p fs) = some q →
+    qbeSize q = (Abi.tinfo T (erase (.su u p fs))).size ∧ qbeAlign q = (Abi.tinfo T (erase (.su u p fs))).align
+
+/-- … and the same scalar fields at the same offsets with the same kind, up to merging of the
+integer fields of one bit-field storage unit. -/
+def desc_fields_full : Prop :=
+  ∀ (T : Abi.Target) (u p : Bool) (fs : AFields) (q : QTy), WfType (erase (.su u p fs)) →
+    emittype (.su u p fs) = some q → FieldsEquiv (flatten q) (flattenC T false (.su u p fs))
+
+def tInt' : AType := .sc (.arith (.basic .int))
+def tChar : AType := .sc (.arith (.basic .char))
+def tShort : AType := .sc (.arith (.basic .short))
+def tLong : AType := .sc (.arith (.basic .long))
+def tLLong : AType := .sc (.arith (.basic .llong))
+def tFloat : AType := .sc (.arith (.basic .float))
+def tDouble : AType := .sc (.arith (.basic .double))
+def mem (n : String) (t : AType) (rest : AFields) : AFields := .cons (some n) t 0 none rest
+def bfm (n : String) (t : AType) (w : Nat) (rest : AFields) : AFields := .cons (some n) t 0 (some w) rest
+
+/-- what a witness shows: accepted by the compiler, described, and QBE's size differs from `sizeof` -/
+def SizeRefuted (T : Abi.Target) (S : AType) : Prop :=
+  WfType (erase S) ∧ (emittype S).isSome = true ∧ (emittype S).map qbeSize ≠ some (Abi.tinfo T (erase S)).size
+
+/-- `struct A {int a:3; char c[7];}` is described as `{ w }`: 4 bytes for 8
+(finding `bitfield-unit-skips-member`) -/
+def skipsWitness : AType := .su false false (bfm "a" tInt' 3 (mem "c" (.array tChar (some 7)) .nil))
+
+theorem skips_refuted : SizeRefuted x86_64 skipsWitness := by
+  refine ⟨?_, ?_⟩
+  · unfold skipsWitness bfm mem tInt' tChar
+    simp only [erase, eraseF, WfType, WfFields, and_true]
+    decide
+  · exact ⟨by decide, by decide⟩
+
+theorem desc_size_align_counterexample : ¬ desc_size_align_full := by
+  intro h
+  obtain ⟨hw, hs, hne⟩ := skips_refuted
+  cases hq : emittype skipsWitness with
+  | none => rw [hq] at hs; cases hs
+  | some q =>
+    apply hne
+    rw [hq, Option.map_some, (h x86_64 false false _ q hw hq).1]
+    rfl
+
+/-- `struct B {int a:3; char b:3;}` is `{ b }`: 1/1 for 4/4 (`bitfield-smaller-unit-merge`) -/
+def smallerWitness : AType := .su false false (bfm "a" tInt' 3 (bfm "b" tChar 3 .nil))
+
+theorem smaller_refuted : SizeRefuted x86_64 smallerWitness := by
+  refine ⟨?_, ?_⟩
+  · unfold smallerWitness bfm tInt' tChar
+    simp only [erase, eraseF, WfType, WfFields, and_true]
+    decide
+  · exact ⟨by decide, by decide⟩
+
+/-- `struct S {long long a; float b[3]; unsigned char c; unsigned long d:5; unsigned short e;}` is
+`{ l, s 3, l }`: 32 bytes for 24 (`bitfield-unit-overlap-descriptor`) -/
+def overlapWitness : AType :=
+  .su false false (mem "a" tLLong (mem "b" (.array tFloat (some 3)) (mem "c" (.sc (.arith (.basic .uchar)))
+    (bfm "d" (.sc (.arith (.basic .ulong))) 5 (mem "e" (.sc (.arith (.basic .ushort))) .nil)))))
+
+theorem overlap_refuted : SizeRefuted x86_64 overlapWitness := by
+  refine ⟨?_, ?_⟩
+  · unfold overlapWitness bfm mem tLLong tFloat
+    simp only [erase, eraseF, WfType, WfFields, and_true]
+    decide
+  · exact ⟨by decide, by decide⟩
+
+/-- `struct Z {char a; int :0; char b;}` is `{ b, b }`: 2 bytes for 5 (`unnamed-bitfield-gap-descriptor`) -/
+def unnamedWitness : AType :=
+  .su false false (mem "a" tChar (.cons none tInt' 0 (some 0) (mem "b" tChar .nil)))
+
+theorem unnamed_refuted : SizeRefuted x86_64 unnamedWitness := by
+  refine ⟨?_, ?_⟩
+  · unfold unnamedWitness mem tInt' tChar
+    simp only [erase, eraseF, WfType, WfFields, and_true]
+    decide
+  · exact ⟨by decide, by decide⟩
+
+/-- `struct F {int n; int a[];}` is `{ w, w }`: 8 bytes for 4 (`flexible-array-descriptor`) -/
+def flexWitness : AType := .su false false (mem "n" tInt' (mem "a" (.array tInt' none) .nil))
+
+theorem flex_refuted : SizeRefuted x86_64 flexWitness := by
+  refine ⟨?_, ?_⟩
+  · unfold flexWitness mem tInt'
+    simp only [erase, eraseF, WfType, WfFields, and_true]
+    decide
+  · exact ⟨by decide, by decide⟩
+
+/-- `struct __attribute__((packed)) P {char a; long b; short c;}` is `{ b, l, h }`: 24 bytes for 11
+(`packed-overaligned-descriptor`) -/
+def packedWitness : AType := .su false true (mem "a" tChar (mem "b" tLong (mem "c" tShort .nil)))
+
+theorem packed_refuted : SizeRefuted x86_64 packedWitness := by
+  refine ⟨?_, ?_⟩
+  · unfold packedWitness mem tChar tLong tShort
+    simp only [erase, eraseF, WfType, WfFields, and_true]
+    decide
+  · exact ⟨by decide, by decide⟩
+
+/-- `struct O {char a; _Alignas(16) int b;}` is `{ b, w }`: 8 bytes for 32 (same finding) -/
+def overalignedWitness : AType := .su false false (mem "a" tChar (.cons (some "b") tInt' 16 none .nil))
+
+theorem overaligned_refuted : SizeRefuted x86_64 overalignedWitness := by
+  refine ⟨?_, ?_⟩
+  · unfold overalignedWitness mem tChar tInt'
+    simp only [erase, eraseF, WfType, WfFields, and_true]
+    decide
+  · exact ⟨by decide, by decide⟩
+
+/-- x86-64: `struct W {__builtin_va_list ap; int x;}` is `{ :.2, w }` with `:.2 = { }`: 4 bytes for 32
+(`valist-member-descriptor`) -/
+def valistWitness : AType :=
+  .su false false (mem "ap" (.array (.blob 24 8 false) (some 1)) (mem "x" tInt' .nil))
+
+theorem valist_witness_is_valist : valist "x86_64-sysv" = some (.array (.blob 24 8 false) (some 1)) := by rfl
+
+theorem valist_refuted : SizeRefuted x86_64 valistWitness := by
+  refine ⟨?_, ?_⟩
+  · unfold valistWitness mem tInt'
+    simp only [erase, eraseF, WfType, WfFields, and_true]
+    decide
+  · exact ⟨by decide, by decide⟩
+
+/-- `struct {long long m:21; float f;}` is `{ l }`: the size and alignment are right, the floating
+field is gone (a member inside a bit-field's storage unit is dropped; RISC-V passes the C struct in
+an FPR and a GPR) -/
+def floatInUnitWitness : AType := .su false false (bfm "m" tLLong 21 (mem "f" tFloat .nil))
+
+theorem desc_fields_counterexample : ¬ desc_fields_full := by
+  intro h
+  have hw : WfType (erase floatInUnitWitness) := by
+    unfold floatInUnitWitness bfm mem tLLong tFloat
+    simp only [erase, eraseF, WfType, WfFields, and_true]
+    decide
+  cases hq : emittype floatInUnitWitness with
+  | none => have : (emittype floatInUnitWitness).isSome = true := by decide
+            rw [hq] at this; cases this
+  | some q =>
+    have h1 := (h x86_64 false false _ q hw hq).1
+    have h2 : (emittype floatInUnitWitness).map (fun q => nonInt (flatten q)) =
+        some (nonInt (flattenC x86_64 false floatInUnitWitness)) := by rw [hq, Option.map_some, h1]; rfl
+    revert h2
+    decide
+
+/-- **Size and alignment, partial**: for every `good` struct/union type and every target, the
+emitted definition exists and QBE gives it the size and alignment of the C type. -/
+theorem desc_size_align_partial (T : Abi.Target) {u p : Bool} {fs : AFields} (h : good (.su u p fs) = true) :
+    ∃ q, emittype (.su u p fs) = some q ∧
+      qbeSize q = (Abi.tinfo T (erase (.su u p fs))).size ∧
+      qbeAlign q = (Abi.tinfo T (erase (.su u p fs))).align := by
+  obtain ⟨q, q1, q2, _⟩ := (pt _ h).desc
+  refine ⟨q, q1, ?_, ?_⟩
+  · rw [tinfo_target T _ h]; simp only [qbeSize, q2]; rfl
+  · rw [tinfo_target T _ h]; simp only [qbeAlign, q2]; rfl
+
+/-- **Fields, partial**: … and flattening the definition gives exactly the scalar fields of the C
+type (bit-fields of one storage unit as one integer field), hence the same floating fields and
+the same integer-covered bytes as the C type with every bit-field counted separately. -/
+theorem desc_fields_partial (T : Abi.Target) {u p : Bool} {fs : AFields} (h : good (.su u p fs) = true) :
+    ∃ q, emittype (.su u p fs) = some q ∧ flatten q = flattenC T true (.su u p fs) ∧
+      FieldsEquiv (flatten q) (flattenC T false (.su u p fs)) := by
+  obtain ⟨q, q1, q2, _⟩ := (pt _ h).desc
+  have e : flatten q = flattenC T true (.su u p fs) := by
+    rw [flattenC_target T true _ h]; simp only [flatten, q2]; rfl
+  exact ⟨q, q1, e, by rw [e]; exact flattenC_merge T _⟩
+
+/-- Merging is harmless for every type (a fact about the spec alone). -/
+theorem merge_preserves_fields (T : Abi.Target) (t : AType) :
+    FieldsEquiv (flattenC T true t) (flattenC T false t) := flattenC_merge T t
+
+/-- Array members `T n`: the element count printed is the number of innermost elements, the
+description is that of the innermost element type. -/
+theorem desc_array_member {t : AType} (h : good t = true) :
+    emittype t = emittype (stripArr t) ∧
+    (ti t).size = cnt t * (ti (stripArr t)).size ∧
+    ∀ mg, flattenC x86_64 mg t = rep (cnt t) (ti (stripArr t)).size (flattenC x86_64 mg (stripArr t)) :=
+  let af := arrFacts t h (pt t h).complete
+  ⟨emittype_strip t, af.size, af.flat⟩
+
+/-- `good` excludes every class the correspondence run treats as a recorded finding. -/
+theorem good_excludes_classes (T : Abi.Target) {t : AType} (h : good t = true) : classes T t = [] :=
+  classes_good T t h
+
+/-- the compiler accepts every `good` type (no spurious `error`) -/
+theorem good_accepted {t : AType} (h : good t = true) : WfType (erase t) := (pt t h).wf
+
+/-! ## Signatures and call sites -/
+
+/-- **Marker position**: in a call through a variadic function type the `...` marker follows exactly
+the arguments for the named parameters (also when there is no variable argument: `68737d2`). -/
+theorem vararg_marker_pos (sc : Bool) (f : FuncTy) (args : List AType) (c : CallSite)
+    (hv : f.variadic = true) (h : emitcall sc f args = some c) :
+    ∃ cs : List Cls, cs.length = args.length ∧ f.params.length ≤ args.length ∧
+      c.args = (cs.take f.params.length).map some ++ none :: (cs.drop f.params.length).map some := by
+  unfold emitcall at h
+  cases ha : argTypes sc f.adjusted f.variadic args with
+  | none => simp [ha] at h
+  | some ts =>
+    obtain ⟨e, hle, _⟩ := argTypes_eq sc _ _ _ _ ha
+    have hlen : f.adjusted.length = f.params.length := by simp [FuncTy.adjusted]
+    cases hc : optMapM classOf ts with
+    | none => simp [ha, hc] at h
+    | some cs =>
+      have hl := optMapM_length _ _ _ hc
+      have htl : ts.length = args.length := by
+        rw [e]; simp only [List.length_append, List.length_map, List.length_drop]; omega
+      have hins : callInsts f.variadic f.params.length 0 cs =
+          (cs.take f.params.length).map some ++ none :: (cs.drop f.params.length).map some := by
+        rw [hv]
+        have := callInsts_marker f.params.length cs 0 (Nat.zero_le _) (by omega)
+        simpa using this
+      refine ⟨cs, by omega, by omega, ?_⟩
+      simp only [ha, hc] at h
+      cases hr : f.ret with
+      | none => simp only [hr, Option.some.injEq] at h; rw [← h]; exact hins
+      | some r =>
+        simp only [hr, Option.map_eq_some_iff] at h
+        obtain ⟨_, _, rfl⟩ := h
+        exact hins
+
+/-- a call through a non-variadic type has no marker -/
+theorem no_marker_without_vararg (sc : Bool) (f : FuncTy) (args : List AType) (c : CallSite)
+    (hv : f.variadic = false) (h : emitcall sc f args = some c) : none ∉ c.args := by
+  unfold emitcall at h
+  rw [hv] at h
+  cases ha : argTypes sc f.adjusted false args with
+  | none => simp [ha] at h
+  | some ts =>
+    cases hc : optMapM classOf ts with
+    | none => simp [ha, hc] at h
+    | some cs =>
+      simp only [ha, hc, callInsts_novararg] at h
+      cases hr : f.ret with
+      | none =>
+        simp only [hr, Option.some.injEq] at h
+        rw [← h]; simp
+      | some r =>
+        simp only [hr, Option.map_eq_some_iff] at h
+        obtain ⟨_, _, rfl⟩ := h
+        simp
+
+/-- **Promotions** (6.5.2.2p6–7): the arguments of a call are converted to the (adjusted) parameter
+types; those after the last parameter of a variadic function undergo the default argument
+promotions (`Spec/Conv.lean`: integer promotions, `float → double`) after array decay. -/
+theorem promotion_of_variadic_args (sc : Bool) (ps args ts : List AType) (v : Bool)
+    (hwf : ∀ a, .sc (.arith a) ∈ args → a.wf = true) (h : argTypes sc ps v args = some ts) :
+    ts = ps ++ (args.drop ps.length).map (fun a => defaultPromote sc (AbiDesc.decay a)) := by
+  rw [(argTypes_eq sc ps v args ts h).1]
+  congr 1
+  apply List.map_congr_left
+  intro a ha
+  apply promoteArg_default
+  intro x hx
+  apply hwf x
+  have ha' := List.mem_of_mem_drop ha
+  cases a with
+  | sc s => simp only [AbiDesc.decay] at hx; rw [hx] at ha'; exact ha'
+  | array e n => simp [AbiDesc.decay] at hx
+  | su u p fs => simp [AbiDesc.decay] at hx
+  | blob s a d => simp [AbiDesc.decay] at hx
+
+/-- a promoted arithmetic argument has the class of its promoted type: never narrower than a word,
+never `s` -/
+theorem promoted_arg_class (sc : Bool) (a : ATy) (hwf : a.wf = true) (c : Cls)
+    (h : classOf (promoteArg sc (.sc (.arith a))) = some c) :
+    abiClass sc emittype (defaultPromote sc (.sc (.arith a))) = some c.toAbi ∧
+      (c.toAbi = .base .w ∨ c.toAbi = .base .l ∨ c.toAbi = .base .d) := by
+  have hp := promoteArg_default sc (.sc (.arith a)) (fun x hx => by cases hx; exact hwf)
+  obtain ⟨w4, nf⟩ := promoted_wide sc a hwf
+  have hns : notSubword (promoteArg sc (.sc (.arith a))) = true := by
+    simp only [promoteArg, notSubword, Bool.or_eq_true, decide_eq_true_eq]; exact Or.inr w4
+  have hc := class_correct sc _ c h hns rfl
+  rw [hp] at hc
+  refine ⟨hc, ?_⟩
+  simp only [promoteArg, classOf, Option.map_eq_some_iff] at h
+  obtain ⟨q, hq, rfl⟩ := h
+  unfold qbetype at hq
+  simp only [Sc.size, Sc.isFloat] at hq
+  have h1 : (typepromote sc a none).size ≠ 1 := by omega
+  have h2 : (typepromote sc a none).size ≠ 2 := by omega
+  simp only [h1, h2, ↓reduceIte] at hq
+  by_cases h4 : (typepromote sc a none).size = 4
+  · simp only [h4, ↓reduceIte] at hq
+    have : (typepromote sc a none).isFloat = false := by
+      cases hfl : (typepromote sc a none).isFloat with
+      | false => rfl
+      | true =>
+        exfalso
+        generalize typepromote sc a none = p at *
+        cases p with
+        | enum i b => cases hfl
+        | basic b => cases b <;> simp_all [ATy.isFloat, ATy.size, Basic.isInt, Basic.size]
+    simp only [this, Bool.false_eq_true, ↓reduceIte, Option.some.injEq] at hq
+    subst hq; exact Or.inl rfl
+  · simp only [h4, ↓reduceIte] at hq
+    by_cases h8 : (typepromote sc a none).size = 8
+    · simp only [h8, ↓reduceIte] at hq
+      cases hfl : (typepromote sc a none).isFloat <;> simp only [hfl, Bool.false_eq_true, ↓reduceIte, Option.some.injEq] at hq <;> subst hq
+      · exact Or.inr (Or.inl rfl)
+      · exact Or.inr (Or.inr rfl)
+    · simp [h8] at hq
+
+/-- **Classes, full strength**: every parameter of a definition has the ABI class of its adjusted C
+type … -/
+def param_class_correct_full : Prop :=
+  ∀ (cs : Bool) (f : FuncTy) (sg : Sig), emitfunc f = some sg →
+    sg.params.map (fun c => some c.toAbi) = f.adjusted.map (abiClass cs emittype)
+
+/-- … is false: `void f(unsigned char)` is `function $f(w %p)`, the ABI class is `ub`
+(finding `subword-arg-not-extended`). -/
+theorem param_class_correct_counterexample : ¬ param_class_correct_full := by
+  intro h
+  cases hs : emitfunc ⟨none, [.sc (.arith (.basic .uchar))], false⟩ with
+  | none =>
+    have : (emitfunc ⟨none, [.sc (.arith (.basic .uchar))], false⟩).isSome = true := by decide
+    rw [hs] at this; cases this
+  | some sg =>
+    have h1 := h true _ sg hs
+    have h2 : (⟨none, [.sc (.arith (.basic .uchar))], false⟩ : FuncTy).adjusted.map (abiClass true emittype) =
+        [some (.sub 1 false)] := by rfl
+    rw [h2] at h1
+    cases hp : sg.params with
+    | nil => rw [hp] at h1; cases h1
+    | cons c cs =>
+      rw [hp] at h1
+      simp only [List.map_cons, List.cons.injEq, Option.some.injEq] at h1
+      cases c <;> cases h1.1
+
+/-- **Classes, partial**: every parameter whose adjusted type is not a sub-word integer has the ABI
+class of that type (aggregates: the emitted definition, see `desc_*`); likewise the return value;
+the `...` of the signature is the declaration's. -/
+theorem param_class_correct_partial (cs : Bool) (f : FuncTy) (sg : Sig) (h : emitfunc f = some sg) :
+    sg.variadic = f.variadic ∧ sg.params.length = f.params.length ∧
+    (∀ i (h1 : i < f.adjusted.length) (h2 : i < sg.params.length), notSubword f.adjusted[i] = true →
+      abiClass cs emittype f.adjusted[i] = some (sg.params[i]).toAbi) ∧
+    (∀ r, f.ret = some r → notSubword r = true → notArray r = true →
+      ∃ c, sg.ret = some c ∧ abiClass cs emittype r = some c.toAbi) ∧
+    (f.ret = none → sg.ret = none) := by
+  unfold emitfunc at h
+  cases hp : optMapM classOf f.adjusted with
+  | none => simp [hp] at h
+  | some ps =>
+    have hl := optMapM_length _ _ _ hp
+    have hlen : f.adjusted.length = f.params.length := by simp [FuncTy.adjusted]
+    have key : ∀ i (h1 : i < f.adjusted.length) (h2 : i < ps.length), notSubword f.adjusted[i] = true →
+        abiClass cs emittype f.adjusted[i] = some (ps[i]).toAbi := by
+      intro i h1 h2 hs
+      obtain ⟨_, e⟩ := optMapM_get _ _ _ hp i h1
+      apply class_correct cs _ _ e hs
+      simp only [FuncTy.adjusted, List.getElem_map]
+      exact adjusted_notArray _
+    simp only [hp] at h
+    cases hr : f.ret with
+    | none =>
+      simp only [hr, Option.some.injEq] at h
+      subst h
+      exact ⟨rfl, (by simp only; omega), key, (fun r hr' => by cases hr'), (fun _ => rfl)⟩
+    | some r =>
+      simp only [hr, Option.map_eq_some_iff] at h
+      obtain ⟨c, hc, rfl⟩ := h
+      refine ⟨rfl, (by simp only; omega), key, ?_, (fun h0 => by cases h0)⟩
+      intro r' hr' hs ha
+      cases hr'
+      exact ⟨c, rfl, class_correct cs _ _ hc hs ha⟩
+
+/-- `va_arg(ap, T)` fetches with the class of `T` (scalar `T` only; anything else is diagnosed) -/
+theorem vaarg_class (cs : Bool) (t : AType) (b : Base) (h : vaargClass t = some b) (hs : notSubword t = true) :
+    abiClass cs emittype t = some (.base b) := by
+  cases t with
+  | sc s =>
+    have : classOf (.sc s) = some (.base b) := by
+      simp only [vaargClass, Option.map_eq_some_iff] at h
+      obtain ⟨q, hq, rfl⟩ := h
+      simp only [classOf, hq, Option.map_some]
+    exact class_correct cs _ _ this hs rfl
+  | array e n => simp [vaargClass] at h
+  | su u p fs => simp [vaargClass] at h
+  | blob s a d => simp [vaargClass] at h
+
+/-! ## `va_list` -/
+
+/-- `va_list` of every target of `targ.c` (`Gen/Targets.lean`, regenerated on every run) has the
+kind, size and alignment of its psABI's definition laid out by the C06 layout spec: SysV x86-64
+`struct {unsigned, unsigned, void *, void *}[1]` (24/8), AAPCS64 `struct {void *×3, int×2}` (32/8),
+RISC-V `void *` (8/8). -/
 theorem valist_per_target :
     ∀ r ∈ Gen.Targets.table, psabiVaList r.name = some (r.valistKind, r.valistSize, r.valistAlign) := by
   decide
 
-def intT' : AType := .sc (.arith (.basic .int))
-def charT : AType := .sc (.arith (.basic .char))
+/-- what the backend is told: x86-64 and RISC-V pass a `va_list` as a pointer (`l`); AAPCS64 passes
+the structure by value, described as an opaque type of the psABI structure's size and alignment. -/
+theorem valist_classes :
+    (valist "x86_64-sysv").map (fun t => (classOf (typeadjust t)).map Cls.toAbi) = some (some (.base .l)) ∧
+    (valist "riscv64").map (fun t => (classOf (typeadjust t)).map Cls.toAbi) = some (some (.base .l)) ∧
+    (valist "aarch64").map (fun t => (classOf (typeadjust t)).map Cls.toAbi) = some (some (.agg (.opaque 8 32))) ∧
+    qbeSize (.opaque 8 32) = (Abi.tinfo aarch64 (erase aapcs64VaList)).size ∧
+    qbeAlign (.opaque 8 32) = (Abi.tinfo aarch64 (erase aapcs64VaList)).align :=
+  ⟨rfl, rfl, rfl, by decide, by decide⟩
 
-/-- `struct A {int a:3; char c[7];}` -/
-def skipsWitness : AType :=
-  .su false false (.cons (some "a") intT' 0 (some 3) (.cons (some "c") (.array charT (some 7)) 0 none .nil))
+/-! ## Non-vacuity -/
 
-example : (emittype skipsWitness).map qbeSize = some 4 ∧ (Abi.tinfo x86_64 (erase skipsWitness)).size = 8 := by
-  decide
+/-- `struct G { char tag; struct { short s; double d; } in[2]; unsigned a:3, b:5; int c:24; float f[3];
+union { void *p; long long v; float g; } u; short m[2][3]; }` -/
+def exGood : AType :=
+  .su false false (mem "tag" tChar
+    (mem "in" (.array (.su false false (mem "s" tShort (mem "d" tDouble .nil))) (some 2))
+    (bfm "a" (.sc (.arith (.basic .uint))) 3 (bfm "b" (.sc (.arith (.basic .uint))) 5 (bfm "c" tInt' 24
+    (mem "f" (.array tFloat (some 3))
+    (mem "u" (.su true false (mem "p" (.sc .ptr) (mem "v" tLLong (mem "g" tFloat .nil))))
+    (mem "m" (.array (.array tShort (some 3)) (some 2)) .nil))))))))
+
+example : good exGood = true := by decide
+example : ∃ q, emittype exGood = some q ∧ qbeSize q = 80 ∧ qbeAlign q = 8 := by
+  obtain ⟨q, h1, h2, h3⟩ := desc_size_align_partial aarch64 (u := false) (p := false) (by decide : good exGood = true)
+  exact ⟨q, h1, by rw [h2]; decide, by rw [h3]; decide⟩
+-- the witnesses are not `good`, each for its own reason
+example : good skipsWitness = false ∧ good smallerWitness = false ∧ good overlapWitness = false ∧
+    good unnamedWitness = false ∧ good flexWitness = false ∧ good packedWitness = false ∧
+    good overalignedWitness = false ∧ good valistWitness = false ∧ good floatInUnitWitness = false := by decide
+example : classes x86_64 skipsWitness = ["bitfield-unit-skips-member", "unit-shared"] := by decide
+example : classes x86_64 packedWitness = ["packed"] ∧ classes x86_64 flexWitness = ["flexible", "flexible"] := by decide
+-- a struct with an AAPCS64 va_list member is good (opaque description)
+example : good (.su false false (mem "ap" (.blob 32 8 true) (mem "x" tInt' .nil))) = true := by decide
+-- signatures: `int g(char *, ...)` called as `g(p, 'c', 1.0f, (short)1, 2L)`
+def exF : FuncTy := ⟨some tInt', [.sc .ptr], true⟩
+example : (emitcall true exF [.sc .ptr, tChar, tFloat, tShort, tLong]).map (fun c => c.args.length) = some 6 := by decide
+example : (argTypes true exF.adjusted true [.sc .ptr, tChar, tFloat, tShort, tLong]).map
+    (List.map fun t => (vaargClass t).map Base.toString) =
+    some [some "l", some "w", some "d", some "w", some "l"] := by decide
+example : notSubword tInt' = true ∧ notSubword tChar = false ∧ notSubword tFloat = true := by decide
 
 end CprocVerif.C08
